@@ -236,6 +236,10 @@ def check(ctx: Ctx):
     check_neighbours(ctx)
     if ctx.tier == "thorough":
         check_double_crash(ctx)
+    # the header an aggregator writes / compares is determined by its own evaluator alone (R15.7)
+    from . import c03, c15
+
+    c03._guarded(ctx, "R15.7", c15.check_globals)
 
 
 _A = "panoptica/panoptica_aggregator.py"
